@@ -68,6 +68,22 @@ def Direction (k : Nat) (cols : List (List Nat)) (st : LState) (next0 : List Nat
   ∃ wl pv nx, st.ws.getLast? = some wl ∧ st.vs.getLast? = some pv ∧
     mulAabOpt (qsOptimize k cols) wl = some nx ∧ next0 = List.zipWith (fun a p => a ^^^ p) nx pv
 
+/-- what an iteration that continues has computed (used to carry the extended invariant) -/
+structure StepFacts (k : Nat) (cols : List (List Nat)) (st : LState) (hist : List (List Nat)) (st' : LState)
+    (mk : Nat) (w next next0 : List Nat) : Prop where
+  dir : Direction k cols st next0
+  nextOK : BlockOK cols.length next
+  mkLt : mk < 2 ^ 64
+  wEq : w = next.map (fun v => v &&& mk)
+  vsEq : ∃ vs0, st'.vs = vs0 ++ [next]
+  wsEq : ∃ ws0, st'.ws = ws0 ++ [w] ∧ ws0.length = st.ws.length ∧
+    ∀ (j : Nat) (x : List Nat), ws0[j]? = some x → x.isEmpty = true →
+      (∃ w0, st.ws[j]? = some w0 ∧ w0.isEmpty = true) ∨ maskFor st.masks j st.ws.length = some 0
+  masksEq : st'.masks = st.masks ++ [M64 ^^^ mk]
+  orthV : ∀ j, j < st.ws.length → Q k cols (hist.getD j []) next = 0
+  xform : ∀ X, BlockOK cols.length X → (∀ l, l < st.ws.length → Q k cols X (hist.getD l []) = 0) →
+    Q k cols X next = Q k cols X next0
+
 theorem Q_transpose (k : Nat) (cols : List (List Nat)) (x y : List Nat) :
     (Q k cols x y)ᵀ = Q k cols y x := by
   simp only [Q, Matrix.transpose_mul, Matrix.transpose_transpose, gramA_symm, Matrix.mul_assoc]
@@ -80,7 +96,7 @@ theorem lanczosStep_checked_ok {k : Nat} {cols : List (List Nat)} (hM : MatOK k 
     (∃ st', lanczosStep true (qsOptimize k cols) ay st = .finished st' ∧ st'.y = st.y ∧
       ∀ w ∈ st'.ws, w.isEmpty = false → ∃ j : Nat, st.ws[j]? = some w) ∨
     (∃ st' mk w, lanczosStep true (qsOptimize k cols) ay st = .continue st' mk ∧
-      LInv k cols Y0 st' (hist ++ [w]) (Ss ++ [mk])) := by
+      LInv k cols Y0 st' (hist ++ [w]) (Ss ++ [mk]) ∧ ∃ next next0, StepFacts k cols st hist st' mk w next next0) := by
   have h := hInv.wf
   obtain ⟨wl, hwl, hwlOK⟩ := h.lastW
   obtain ⟨pv, hpv, hpvOK⟩ := h.lastV
@@ -94,12 +110,12 @@ theorem lanczosStep_checked_ok {k : Nat} {cols : List (List Nat)} (hM : MatOK k 
   obtain ⟨av, hav, havOK⟩ := mulAabOpt_ok hM hn1OK
   have hC : ProjCtx k cols st hist Ss (List.zipWith (fun a p => a ^^^ p) nx pv) :=
     ⟨hInv.histOK, hInv.kept, hInv.orth, h3 _ ⟨wl, pv, nx, hwl, hpv, hn0, rfl⟩⟩
-  obtain ⟨⟨vs', ws', next⟩, hfold, ⟨hv', hw', hwOK', hnextOK⟩, _, hsub, hq⟩ :=
+  obtain ⟨⟨vs', ws', next⟩, hfold, ⟨hv', hw', hwOK', hnextOK⟩, _, hsub, hq, hxf, hpr⟩ :=
     projFold_checked hM hn1OK hav h.lenI h.lenM hC st.ws.length 0
       (st.vs, st.ws, List.zipWith (fun a p => a ^^^ p) nx pv) (by omega)
       ⟨⟨h.lenV, rfl, h.wsOK, hn1OK⟩, fun _ _ => rfl, fun _ _ hh _ => hh, fun j hj => by
-        rw [if_neg (by omega)]⟩
-  simp only at hv' hw' hwOK' hnextOK hsub hq
+        rw [if_neg (by omega)], fun _ _ _ => rfl, fun j w hjw he => Or.inl ⟨w, hjw, he⟩⟩
+  simp only at hv' hw' hwOK' hnextOK hsub hq hxf hpr
   rw [← List.range_eq_range'] at hfold
   -- the new direction is A-orthogonal to every block of the history
   have hqV : ∀ j, j < st.ws.length → Q k cols (hist.getD j []) next = 0 := by
@@ -192,7 +208,10 @@ theorem lanczosStep_checked_ok {k : Nat} {cols : List (List Nat)} (hM : MatOK k 
       rw [cellMat_aab hM hayy, ← Matrix.mul_assoc]
       exact hyorth
     refine ⟨LState.mk (vs' ++ [next]) (ws' ++ [next.map (fun v => v &&& mk)]) (st.invgs ++ [ginv])
-      (st.masks ++ [M64 ^^^ mk]) y', mk, next.map (fun v => v &&& mk), ?_, ?_⟩
+      (st.masks ++ [M64 ^^^ mk]) y', mk, next.map (fun v => v &&& mk), ?_, ?_,
+      next, List.zipWith (fun a p => a ^^^ p) nx pv,
+      { dir := ⟨wl, pv, nx, hwl, hpv, hn0, rfl⟩, nextOK := hnextOK, mkLt := hS.lt, wEq := rfl
+        vsEq := ⟨vs', rfl⟩, wsEq := ⟨ws', rfl, hw', hpr⟩, masksEq := rfl, orthV := hqV, xform := hxf }⟩
     · unfold lanczosStep
       rw [if_neg (by rw [h.lenV]; exact fun hh => hh rfl), hwl, hpv]
       simp only [h.lenV, hn0, if_neg (show ¬ pv.length < nx.length by rw [hpvOK.1, hn0OK.1]; omega), hav, hfold, hbv,
